@@ -534,6 +534,14 @@ pub fn run(ctx: &Ctx) -> (Vec<Case>, String, bool, BTreeMap<String, String>) {
         all.extend(par_cases(ctx, "C17", "info", ctx.tier.pick(600, 8000), |i, id| info_case(ctx, i, id)));
         all.extend(h.join().unwrap());
     });
+    // several connections, connection requests to listening and other ports, resets, shutdowns (C18's
+    // streams): data of one connection is never lost because of packets for another
+    let mut t18 = crate::c18_vsockconn::run(ctx).0;
+    for c in t18.iter_mut() {
+        c.id = format!("C17-via-{}", c.id);
+        c.tag("connection-table");
+    }
+    all.extend(t18);
     let rule = "streams: real VsockConnectionManager (LedgerHal, ModelTransport, reference split-queue device) with 1-2 connections, random walks of send/recv/update_credit/available/poll against an honest reference peer (data within advertised credit, honest credit updates incl. shrinking buf_alloc, credit requests, mid-stream shutdown) — `hostile` adds credit-breaking data and arbitrary credit values; `info`: VirtIOSocket + caller-managed ConnectionInfo on boundary-biased 32-bit tuples; `wrap`: >4 GiB sent (tx_cnt wraps, model-compared) and >4 GiB received (fwd_cnt wraps, oracle only). non-trivial = at least one payload byte moved end to end (streams), an accepted send (info), or the counter actually wrapped (wrap)".to_string();
     let _ = Tier::Quick;
     (all, rule, false, BTreeMap::new())
